@@ -263,7 +263,7 @@ theorem chunk_even (q n : Nat) (hq : 0 < q) (hn : 1 < n) :
 
 theorem roll_shape_one (s : Shape) (shift dim : Int) (a : Nat)
     (h0 : s.length ≠ 0) (hz : s.getD 0 0 ≠ 0) (ha : normAxis s.length dim = some a)
-    (hlen : (roll.stepIdx (s.getD a 0) (numel s) shift).length = s.getD a 0) :
+    (hlen : (roll.stepIdx (s.getD a 0) (numel s) (roll.redShift (s.getD a 0) shift)).length = s.getD a 0) :
     roll.model s [shift] [dim] = some s := by
   unfold roll.model
   simp only [h0, hz, if_false, List.isEmpty_cons, List.zip_cons_cons, List.zip_nil_right, List.drop_succ_cons, List.drop_zero,
@@ -272,27 +272,43 @@ theorem roll_shape_one (s : Shape) (shift dim : Int) (a : Nat)
 
 
 theorem cat_agrees (ss : List Shape) (dim : Int) (out : Shape)
-    (hne : ss.filter (· != [0]) ≠ []) (h : cat.spec ss dim = some out) : cat.model ss dim = some out := by
+    (h : cat.spec ss dim = some out) : cat.model ss dim = some out := by
   unfold cat.spec at h
   unfold cat.model
   split at h
   · simp at h
-  · generalize ss.filter (· != [0]) = f at *
-    match f, hne with
-    | [s], _ =>
+  · next hne0 =>
+    cases hf : ss.filter (· != [0]) with
+    | nil =>
+      rw [hf] at h
       simp only at h ⊢
-      split at h
-      · simp at h
-      · next a ha =>
-        simp only [List.all_nil, if_true, List.foldl_cons, List.foldl_nil, Nat.zero_add, setAt_getD_self] at h
-        exact h
-    | s :: t :: rest, _ =>
-      simp only at h ⊢
-      unfold concatOp
-      by_cases hl : s.length = 0
-      · simp [hl] at h
-      · simp only [hl, if_false] at h
-        exact h
+      cases ss with
+      | nil => simp at hne0
+      | cons x xs =>
+        have hx : (x != [0]) = false := by
+          cases hb : (x != [0]) with
+          | false => rfl
+          | true => simp [List.filter_cons, hb] at hf
+        have : x = [0] := by simpa using hx
+        simp only [List.head?_cons]
+        rw [this]; exact h
+    | cons s rest =>
+      rw [hf] at h
+      cases rest with
+      | nil =>
+        simp only at h ⊢
+        split at h
+        · simp at h
+        · next a ha =>
+          simp only [List.all_nil, if_true, List.foldl_cons, List.foldl_nil, Nat.zero_add, setAt_getD_self] at h
+          exact h
+      | cons t rest' =>
+        simp only at h ⊢
+        unfold concatOp
+        by_cases hl : s.length = 0
+        · simp [hl] at h
+        · simp only [hl, if_false] at h
+          exact h
 
 theorem all_nonneg_iff (l : List Int) : l.all (0 ≤ ·) = !l.any (· < 0) := by
   induction l with
@@ -485,23 +501,275 @@ theorem expand_agrees (s : Shape) (size : List Int) (out : Shape)
     simp only [e1, a1, Bool.false_eq_true, if_false, a2, i2, Option.map_some]
     exact h
 
-theorem broadcast_to_agrees (s : Shape) (size : List Int) (out : Shape) (hn : ∀ d ∈ size, d ≠ -1)
-    (h : broadcast_to.spec s size = some out) : broadcast_to.model s size = some out := by
-  have hm' : ∀ (l : List Int), (∀ d ∈ l, d ≠ -1) → l.map (fun d => if d == -1 then 1 else d) = l := by
-    intro l
-    induction l with
-    | nil => intro _; rfl
-    | cons x xs ih =>
-      intro hl
-      have hx : x ≠ -1 := hl x (by simp)
-      simp only [List.map_cons]
-      rw [ih (fun d hd => hl d (by simp [hd]))]
-      simp [hx]
-  have hm := hm' size hn
-  have := expand_agrees s size out h
-  unfold expand.model at this
-  rw [hm] at this
-  exact this
+theorem broadcast_to_agrees (s : Shape) (size : List Int) (out : Shape)
+    (h : broadcast_to.spec s size = some out) : broadcast_to.model s size = some out :=
+  expand_agrees s size out h
+
+theorem resolveZeros_true (inp : Shape) (tgt : List Int) (i : Nat) : resolveZeros true inp tgt i = some tgt := by
+  induction tgt generalizing i with
+  | nil => rfl
+  | cons t ts ih => simp [resolveZeros, ih]
+
+theorem knownProd_nonneg (l : List Int) (h : ∀ t ∈ l, -1 ≤ t) :
+    0 ≤ knownProd l ∧ (0 < knownProd l → l.contains 0 = false) := by
+  induction l with
+  | nil => simp [knownProd]
+  | cons t ts ih =>
+    have ht : -1 ≤ t := h t (by simp)
+    obtain ⟨i1, i2⟩ := ih (fun x hx => h x (by simp [hx]))
+    unfold knownProd
+    by_cases hm : t = -1
+    · subst hm
+      simp only [beq_self_eq_true, if_true]
+      refine ⟨i1, fun hp => ?_⟩
+      have := i2 hp
+      simp at this
+      simp [this]
+    · have hb : (t == -1) = false := by simpa using hm
+      simp only [hb, Bool.false_eq_true, if_false]
+      have ht0 : 0 ≤ t := by omega
+      refine ⟨Int.mul_nonneg ht0 i1, fun hp => ?_⟩
+      have htp : 0 < t := by
+        rcases Int.lt_or_eq_of_le ht0 with h1 | h1
+        · exact h1
+        · rw [← h1] at hp; simp at hp
+      have hkp : 0 < knownProd ts := by
+        rcases Int.lt_or_eq_of_le i1 with h1 | h1
+        · exact h1
+        · rw [← h1] at hp; simp at hp
+      have := i2 hkp
+      simp at this
+      have hne : ¬ (0 = t) := by omega
+      simp [this, hne]
+
+theorem view_agrees (s : Shape) (size : List Int) (out : Shape)
+    (h : view.spec s size = some out) : view.model s size = some out := by
+  unfold view.spec unflatten.inferSize at h
+  dsimp only at h
+  unfold view.model reshape
+  dsimp only
+  split at h
+  · simp at h
+  · next hany =>
+    split at h
+    · simp at h
+    · next hcnt =>
+      simp only [hany, hcnt, if_false, resolveZeros_true]
+      have hall : ∀ t ∈ size, -1 ≤ t := by
+        intro t ht
+        have := hany
+        simp only [List.any_eq_true, not_exists, not_and, decide_eq_true_eq] at this
+        have := this t ht
+        omega
+      obtain ⟨k1, k2⟩ := knownProd_nonneg size hall
+      split at h
+      · next h1 =>
+        split at h
+        · next hk =>
+          have hpos : 0 < knownProd size := by omega
+          have hc := k2 hpos
+          have hk0 : ¬ ((knownProd size).toNat = 0 ∨ numel s % (knownProd size).toNat ≠ 0) := by omega
+          simp only [h1, if_true, hc, Bool.and_false, Bool.false_eq_true, if_false, hk0]
+          exact h
+        · simp at h
+      · next h1 =>
+        simp only [h1, if_false]
+        exact h
+
+theorem bcastRev_ones (a : List Nat) (n : Nat) :
+    bcastRev a (List.replicate n 1) = some (a ++ List.replicate (n - a.length) 1) := by
+  induction a generalizing n with
+  | nil => cases n <;> simp [bcastRev]
+  | cons x xs ih =>
+    cases n with
+    | zero => simp [bcastRev]
+    | succ m =>
+      simp only [List.replicate_succ, bcastRev, ih m, Option.map_some, List.length_cons, Nat.add_sub_add_right]
+      by_cases h1 : x = 1 <;> simp [h1]
+
+theorem repeat_agrees (s : Shape) (reps : List Int) (out : Shape)
+    (h : repeat_.spec s reps = some out) : repeat_.model s reps = some out := by
+  unfold repeat_.spec at h
+  unfold repeat_.model
+  split at h
+  · simp at h
+  · next hc =>
+    have hlen : s.length ≤ reps.length := by omega
+    have hneg : reps.any (· < 0) = false := by
+      cases hh : reps.any (· < 0) with
+      | false => rfl
+      | true => exact absurd (Or.inr hh) hc
+    by_cases he : reps.isEmpty
+    · have : reps = [] := by simpa using he
+      subst this
+      have hs : s = [] := by cases s with | nil => rfl | cons _ _ => simp at hlen
+      subst hs
+      simpa using h
+    · simp only [he, Bool.false_eq_true, if_false, expandOp, List.reverse_replicate, bcastRev_ones, Option.map_some,
+        List.reverse_append, List.reverse_reverse, List.length_reverse]
+      unfold tileOp
+      have hl : (reps.length == (List.replicate (reps.length - s.length) 1 ++ s).length) = true := by
+        simp; omega
+      simp only [hl, all_nonneg_iff, hneg, Bool.not_false, Bool.and_self, Bool.and_true, if_true] at h ⊢
+      exact h
+
+theorem sameExcept_self (a : Nat) (u : Shape) : sameExcept a u u = true := by
+  unfold sameExcept
+  simp
+
+theorem mapM_replicate_some {α β} (f : α → Option β) (x : α) (y : β) (h : f x = some y) (n : Nat) :
+    (List.replicate n x).mapM f = some (List.replicate n y) := by
+  induction n with
+  | zero => rfl
+  | succ m ih => simp [List.replicate_succ, List.mapM_cons, h, ih]
+
+theorem mapM_replicate_none {α β} (f : α → Option β) (x : α) (h : f x = none) (n : Nat) :
+    (List.replicate (n + 1) x).mapM f = none := by
+  simp [List.replicate_succ, List.mapM_cons, h]
+
+theorem foldl_count (u : Shape) (a : Nat) (n acc : Nat) :
+    (List.replicate n u).foldl (fun acc t => acc + t.getD a 0) acc = acc + n * u.getD a 0 := by
+  induction n generalizing acc with
+  | zero => simp
+  | succ m ih => simp only [List.replicate_succ, List.foldl_cons, ih]; rw [Nat.succ_mul]; omega
+
+theorem insertOne_set (s : Shape) (a v : Nat) (ha : a ≤ s.length) :
+    setAt (insertOne s a) a v = s.take a ++ [v] ++ s.drop a ∧ (insertOne s a).getD a 0 = 1 := by
+  unfold setAt insertOne
+  have hl : (s.take a).length = a := by simp; omega
+  constructor
+  · rw [List.set_append_right _ _ (by omega)]
+    simp [hl]
+  · simp [List.getD_eq_getElem?_getD, List.getElem?_append_right (Nat.le_of_eq hl), hl]
+
+theorem stack_agrees (s : Shape) (n : Nat) (dim : Int) :
+    stack.model (List.replicate (n + 1) s) dim = stack.spec (List.replicate (n + 1) s) dim := by
+  unfold stack.model stack.spec
+  have hall : (List.replicate n s).all (· == s) = true := by simp
+  simp only [List.replicate_succ, hall, if_true, List.length_cons, List.length_replicate]
+  cases ha : normAxis (s.length + 1) dim with
+  | none =>
+    have : unsqueeze1 s dim = none := by simp [unsqueeze1, ha]
+    have := mapM_replicate_none (fun t => unsqueeze1 t dim) s this n
+    simp only [List.replicate_succ] at this
+    simp [this]
+  | some a =>
+    have hu : unsqueeze1 s dim = some (insertOne s a) := by simp [unsqueeze1, ha]
+    have hm := mapM_replicate_some (fun t => unsqueeze1 t dim) s _ hu (n + 1)
+    simp only [List.replicate_succ] at hm
+    simp only [hm, Option.map_some]
+    have hlen : (insertOne s a).length = s.length + 1 := by
+      unfold insertOne; simp; omega
+    have hale : a ≤ s.length := by
+      unfold normAxis at ha
+      split at ha
+      · injection ha with ha; omega
+      · split at ha
+        · injection ha with ha; omega
+        · simp at ha
+    unfold concatOp
+    simp only [hlen, ha]
+    have hs : (List.replicate n (insertOne s a)).all (sameExcept a (insertOne s a)) = true := by
+      simp [sameExcept_self]
+    obtain ⟨e1, e2⟩ := insertOne_set s a (n + 1) hale
+    have hf := foldl_count (insertOne s a) a (n + 1) 0
+    simp only [List.replicate_succ] at hf
+    simp only [hs, if_true, hf, e2, Nat.mul_one, Nat.zero_add, e1]
+
+theorem hasDup_false_of_nodup (l : List Nat) (h : l.Nodup) : hasDup l = false := by
+  induction l with
+  | nil => rfl
+  | cons a as ih =>
+    rw [List.nodup_cons] at h
+    simp [hasDup, h.1, ih h.2]
+
+theorem swapRange_get? (r i j k : Nat) (hi : i < r) (hj : j < r) (hk : k < r) :
+    (transpose.swapRange r i j)[k]? = some (if k = j then i else if k = i then j else k) := by
+  unfold transpose.swapRange
+  simp only [List.getElem?_set, List.length_set, List.length_range, List.getElem?_range hk]
+  by_cases e1 : j = k
+  · subst e1; simp [hk]
+  · have e1' : ¬ k = j := fun e => e1 e.symm
+    simp only [e1, e1', if_false]
+    by_cases e2 : i = k
+    · subst e2; simp [hk]
+    · have e2' : ¬ k = i := fun e => e2 e.symm
+      simp [e2, e2']
+
+theorem swapRange_getElem (r i j k : Nat) (hi : i < r) (hj : j < r) (hk : k < (transpose.swapRange r i j).length) :
+    (transpose.swapRange r i j)[k] = if k = j then i else if k = i then j else k := by
+  have hk' : k < r := by simpa [transpose.swapRange] using hk
+  have := swapRange_get? r i j k hi hj hk'
+  rw [List.getElem?_eq_getElem hk] at this
+  exact Option.some.inj this
+
+theorem swapRange_length (r i j : Nat) : (transpose.swapRange r i j).length = r := by
+  simp [transpose.swapRange]
+
+theorem swapRange_perm (r i j : Nat) (hi : i < r) (hj : j < r) : isPerm r (transpose.swapRange r i j) = true := by
+  unfold isPerm
+  have hlen := swapRange_length r i j
+  have hall : (transpose.swapRange r i j).all (· < r) = true := by
+    rw [List.all_eq_true]
+    intro x hx
+    obtain ⟨k, hk, rfl⟩ := List.getElem_of_mem hx
+    rw [swapRange_getElem r i j k hi hj hk]
+    have : k < r := by omega
+    simp only [decide_eq_true_eq]
+    (repeat' split) <;> omega
+  let σ : Nat → Nat := fun k => if k = i then j else if k = j then i else k
+  have hmap : (transpose.swapRange r i j).map σ = List.range r := by
+    apply List.ext_getElem
+    · simp [hlen]
+    · intro k h1 h2
+      simp only [List.getElem_map, List.getElem_range]
+      rw [swapRange_getElem r i j k hi hj (by simpa using h1)]
+      show (if _ = i then j else if _ = j then i else _) = k
+      (repeat' split) <;> omega
+  have hnd : (transpose.swapRange r i j).Nodup := by
+    have hr : (List.map σ (transpose.swapRange r i j)).Nodup := by rw [hmap]; exact List.nodup_range
+    exact List.Pairwise.of_map σ (fun a b hab e => hab (congrArg σ e)) hr
+  simp [hlen, hall, hasDup_false_of_nodup _ hnd]
+
+theorem transpose_agrees (s : Shape) (d0 d1 : Int) (hr : s.length ≠ 0) :
+    transpose.model s d0 d1 = transpose.spec s d0 d1 := by
+  unfold transpose.model transpose.spec torchDim transposeOp
+  simp only [hr, if_false]
+  cases h0 : normAxis s.length d0 with
+  | none => simp
+  | some i =>
+    cases h1 : normAxis s.length d1 with
+    | none => simp
+    | some j =>
+      have hi : i < s.length := by
+        unfold normAxis at h0; split at h0
+        · injection h0 with h0; omega
+        · split at h0
+          · injection h0 with h0; omega
+          · simp at h0
+      have hj : j < s.length := by
+        unfold normAxis at h1; split at h1
+        · injection h1 with h1; omega
+        · split at h1
+          · injection h1 with h1; omega
+          · simp at h1
+      simp only [swapRange_perm s.length i j hi hj, if_true, Option.some.injEq]
+      apply List.ext_getElem
+      · simp [swapRange_length]
+      · intro k h1' h2'
+        have hk : k < s.length := by simpa [swapRange_length] using h1'
+        simp only [List.getElem_map, List.getElem_set]
+        rw [swapRange_getElem s.length i j k hi hj (by simpa using h1')]
+        simp only [List.getD_eq_getElem?_getD]
+        by_cases e1 : k = j
+        · subst e1; simp [List.getElem?_eq_getElem hi]
+        · have : ¬ j = k := fun e => e1 e.symm
+          simp only [e1, this, if_false]
+          by_cases e2 : k = i
+          · subst e2; simp [List.getElem?_eq_getElem hj]
+          · have : ¬ i = k := fun e => e2 e.symm
+            simp [e2, this, List.getElem?_eq_getElem hk]
+
 
 section attr
 open OV.C08.attr
@@ -636,6 +904,38 @@ theorem pad_layout (rank : Nat) (ps : List (Int × Int)) (hm : ps.length ≤ ran
   obtain ⟨e1, e2⟩ := everyOther_flatR (ps ++ List.replicate (rank - ps.length) (0, 0)).reverse
   rw [e1, e2]
   simp [List.reverse_append, List.map_append]
+
+theorem ceil_eq_floor_succ (x s : Int) (hs : 0 < s) : ceilDivPos x s = (x - 1) / s + 1 := by
+  unfold ceilDivPos
+  have : x + s - 1 = (x - 1) + 1 * s := by omega
+  rw [this, Int.add_mul_ediv_right _ _ (by omega)]
+
+theorem unfold_windows_agree (d size step : Int) (hs : 0 < step) (h : size ≤ d) :
+    (unfold_.windows d size step : Int) = unfold_.specWindows d size step := by
+  unfold unfold_.windows unfold_.specWindows rangeLen
+  simp only [hs, if_true, gt_iff_lt]
+  have e : d - (size - 1) - 0 = d - size + 1 := by omega
+  rw [e, ceil_eq_floor_succ _ _ hs]
+  have e2 : d - size + 1 - 1 = d - size := by omega
+  rw [e2]
+  have : 0 ≤ (d - size) / step := Int.ediv_nonneg (by omega) (by omega)
+  omega
+
+theorem im2col_blocks_agree (n k s p d : Int) (hs : 0 < s) (h : 1 ≤ n + 2 * p - d * (k - 1)) :
+    (im2col.blocksModel n k s p d : Int) = attr.torchConvOut n k s p d := by
+  unfold im2col.blocksModel attr.torchConvOut rangeLen
+  simp only [hs, if_true, gt_iff_lt]
+  have e : n + (2 * p - d * (k - 1)) - 0 = n + 2 * p - d * (k - 1) := by omega
+  rw [e, ceil_eq_floor_succ _ _ hs]
+  have : 0 ≤ (n + 2 * p - d * (k - 1) - 1) / s := Int.ediv_nonneg (by omega) (by omega)
+  omega
+
+theorem col2im_pads_layout (p : List Int) (h : p.length = 2) : col2im.pads p = p ++ p := by
+  unfold col2im.pads
+  simp [h, pyMul]
+
+theorem col2im_pads_scalar (w : Int) : col2im.pads [w] = [w, w, w, w] := by
+  simp [col2im.pads, pyMul]
 
 end attr
 
